@@ -5,5 +5,12 @@ export CARGO_NET_OFFLINE=true
 cd /verif/engine/extract && cargo build --release --offline
 mkdir -p /verif/build
 cd /verif/replay && CARGO_TARGET_DIR=/verif/build/replay-target cargo build --release --offline
+# CL03 replay driver: links the system libgmp/libmpfr/libmpc (see replay/cl_env.py); built by the checks too if missing
+python3 - <<'PY'
+import sys, subprocess, os
+sys.path.insert(0, "/verif/replay")
+import cl_env
+subprocess.run(["cargo", "build", "--release", "--offline"], cwd="/verif/replay_cl", env=cl_env.env(), check=True)
+PY
 if [ -f /verif/kani/setup.sh ]; then sh /verif/kani/setup.sh; fi
 echo setup-ok
